@@ -1148,7 +1148,9 @@ func c30Generate(thorough bool) []string {
 }
 
 var c30Backquoted = regexp.MustCompile("`[^`]+`")
-var c30Spellings = []string{"2019", "1a", "1", "0x1F", "1e3", "a-b", "a.b", "a b", "é", "Ab", "_a", "a1", "$a", "a$b", "@a"}
+var c30Spellings = []string{"2019", "1a", "1", "0x1F", "1e3", "a-b", "a.b", "a b", "é", "Ab", "_a", "a1", "$a", "a$b", "@a",
+	// keywords in other letter cases (the tokenizer recognises keywords case-insensitively): reserved and non-reserved
+	"Select", "FROM", "Status", "VALUES", "Time", "offset", "Date"}
 
 // ---------------------------------------------------------------------------
 
